@@ -173,11 +173,17 @@ class PoolRun:
         if cfg["kind"] == "simple":
             bad_at(cfg["bad"], 0)     # syntax check
             args = ("simple", cfg["w"])
-            self.pool = poolmod.SimpleTaskPool(
-                self.work, args=args, kwargs=[None, {"k1": "v1"}][len(cfg["w"] + cfg["ecb"]) % 2],
-                end_callback=self._make_cb("e", cfg["ecb"]),
-                cancel_callback=self._make_cb("c", cfg["ccb"]),
-                pool_size=psize, name=POOL_NAME)
+            kw = {"args": args, "kwargs": [None, {"k1": "v1"}][len(cfg["w"] + cfg["ecb"]) % 2],
+                  "end_callback": self._make_cb("e", cfg["ecb"]),
+                  "cancel_callback": self._make_cb("c", cfg["ccb"]), "pool_size": psize, "name": POOL_NAME}
+            if len(cfg["w"] + cfg["ccb"] + str(cfg["size"])) % 2:
+                # documented defaults left out (kwargs=None, no callbacks, pool_size=inf)
+                kw = {k: v for k, v in kw.items() if not (v is None or (k == "pool_size" and v == float("inf")))}
+            self.pool = poolmod.SimpleTaskPool(self.work, **kw)
+        elif psize == float("inf") and len(cfg["w"]) % 2:
+            self.pool = poolmod.TaskPool(name=POOL_NAME)          # pool_size defaults to inf
+        elif len(cfg["ecb"] + cfg["w"]) % 2:
+            self.pool = poolmod.TaskPool(psize, POOL_NAME)        # positionally
         else:
             self.pool = poolmod.TaskPool(pool_size=psize, name=POOL_NAME)
 
@@ -657,10 +663,19 @@ class PoolRun:
             # func(*"@07sp") is func("@", "0", "7", "s", "p"); all of them are legal iterables
             args = [("apply", req, kv["w"]), ["apply", req, kv["w"]],
                     f"@{req:02d}{kv['w']}" if req < 100 and len(kv["w"]) == 2 else ("apply", req, kv["w"])][req % 3]
-            self._spawn_result(self._call(
-                p.apply, func, args, [None, {}, {"k1": "v1"}][req % 3], int(kv["num"]),
-                gname_to_str(g) if g else None,
-                self._make_cb("e", kv["ecb"]), self._make_cb("c", kv["ccb"])))
+            kwargs = [None, {}, {"k1": "v1"}][req % 3]
+            ecb, ccb = self._make_cb("e", kv["ecb"]), self._make_cb("c", kv["ccb"])
+            if (req // 3) % 2 == 0:
+                # the way the documentation writes it: keyword arguments, and whatever equals the
+                # documented default (kwargs=None, num=1, group_name=None, no callbacks) left out
+                kw = {"args": args, "kwargs": kwargs, "num": int(kv["num"]),
+                      "group_name": gname_to_str(g) if g else None,
+                      "end_callback": ecb, "cancel_callback": ccb}
+                kw = {k: v for k, v in kw.items() if not (v is None or (k == "num" and v == 1))}
+                self._spawn_result(self._call(p.apply, func, **kw))
+            else:
+                self._spawn_result(self._call(
+                    p.apply, func, args, kwargs, int(kv["num"]), gname_to_str(g) if g else None, ecb, ccb))
         elif op == "map":
             g = None if kv["g"] == "-" else kv["g"]
             if g:
@@ -669,12 +684,23 @@ class PoolRun:
             stars = int(kv["stars"])
             els = [] if kv["els"] == "-" else kv["els"].split(",")
             meth = [p.map, p.starmap, p.doublestarmap][stars]
-            self._spawn_result(self._call(
-                meth, func, self._arg_iterable(self.n_req, stars, els), int(kv["nc"]),
-                gname_to_str(g) if g else None,
-                self._make_cb("e", kv["ecb"]), self._make_cb("c", kv["ccb"])))
+            ecb, ccb = self._make_cb("e", kv["ecb"]), self._make_cb("c", kv["ccb"])
+            it = self._arg_iterable(self.n_req, stars, els)
+            if (self.n_req // 2) % 2 == 0:
+                # keyword style, documented defaults (num_concurrent=1, group_name=None, no
+                # callbacks) left out
+                kw = {"num_concurrent": int(kv["nc"]), "group_name": gname_to_str(g) if g else None,
+                      "end_callback": ecb, "cancel_callback": ccb}
+                kw = {k: v for k, v in kw.items() if not (v is None or (k == "num_concurrent" and v == 1))}
+                self._spawn_result(self._call(meth, func, it, **kw))
+            else:
+                self._spawn_result(self._call(meth, func, it, int(kv["nc"]), gname_to_str(g) if g else None,
+                                              ecb, ccb))
         elif op == "start":
-            self._spawn_result(self._call(p.start, int(kv["num"])))
+            if self.n_req % 2:
+                self._spawn_result(self._call(p.start, num=int(kv["num"])))
+            else:
+                self._spawn_result(self._call(p.start, int(kv["num"])))
         elif op == "cancel":
             ids = [] if kv["ids"] == "-" else [int(x) for x in kv["ids"].split(",")]
             r = self._call(p.cancel, *ids, **self._msg_kw())
@@ -688,7 +714,7 @@ class PoolRun:
             self.res = "none" if r[0] == "ok" else f"err:{r[1]}"
         elif op == "stop":
             n = -1 if kv["n"] == "neg" else int(kv["n"])
-            r = self._call(p.stop, n)
+            r = self._call(p.stop, n) if n % 2 else self._call(p.stop, num=n)
             self.res = "ids:" + ".".join(map(str, r[1])) if r[0] == "ok" else f"err:{r[1]}"
         elif op == "stopall":
             r = self._call(p.stop_all)
@@ -716,10 +742,13 @@ class PoolRun:
             d = len(self.drivers)
             self.drivers.append(None)
             self.cur_driver = [d, None]
+            # return_exceptions: by keyword, positionally, or - the default, False - not at all
+            rex = (k[-1] == "1")
+            a, kw = [((), {"return_exceptions": rex}), ((rex,), {}), ((), {})][d % 3 if not rex else d % 2]
             if k.startswith("flush"):
-                coro = p.flush(return_exceptions=(k[-1] == "1"))
+                coro = p.flush(*a, **kw)
             elif k.startswith("gac"):
-                coro = p.gather_and_close(return_exceptions=(k[-1] == "1"))
+                coro = p.gather_and_close(*a, **kw)
             else:
                 coro = p.until_closed()
             t = self.loop.create_task(coro)
